@@ -78,6 +78,8 @@ impl<'a, TPrinter: Printer> FileExecutor<'a, TPrinter> {
 
         for reader in std::mem::take(&mut self.readers).into_iter() {
             for line in reader.lines() {
+                #[cfg(feature="verif_hooks")]
+                crate::verif_hooks::point(crate::verif_hooks::Point::BatchLine);
                 if !self.running.load(Ordering::SeqCst) {
                     break;
                 }
@@ -211,6 +213,8 @@ impl<'a> FollowFileExecutor<'a> {
         }
 
         for input_line in FollowFileIterator::new(self.reader.take().unwrap()) {
+            #[cfg(feature="verif_hooks")]
+            crate::verif_hooks::point(crate::verif_hooks::Point::FollowLine);
             if !self.running.load(Ordering::SeqCst) {
                 break;
             }
